@@ -140,8 +140,102 @@ extern('OrderedDict', params={}, model=lambda st, args, kw: B.new_dict(st, None)
        notes='collections.OrderedDict(): an (insertion ordered) dict')
 T.alias('Groups', 'Dict[Str, List[Str]]')
 
-# RecipientDomainSplit._get_domain_groups / .apply: grouping by a dict of lists needs forall-exists invariants over
-# Dict[Str, List[Str]] that the solvers left unknown within budget: not under contract (see DESIGN.md, C16).
+# RecipientDomainSplit._get_domain_groups: every recipient lands in exactly one place -- the list of its own
+# (lower-cased) domain, or the bad-recipient list -- and nothing else is in those lists.  Stated with explicit ghost
+# maps instead of forall-exists: gpos[i] = position of recipient i inside its list, ginv[d][p] / gbinv[p] = the
+# recipient index stored at position p of the list of domain d / of the bad list.
+predicate('valid_rcpt(r)', '"@" in r and len(substr_after_last(r, "@")) > 0')
+klass('RecipientDomainSplit', ghost={'gpos': 'ArrV[Int]', 'ginv': 'MapV[Str, ArrV[Int]]', 'gbinv': 'ArrV[Int]'})
+GROUPS_WF = ('groups != None and bad_rcpts != None and is_list(bad_rcpts) '
+             'and forall(Str, lambda d: implies(dict_has(groups, d), dict_get(groups, d) != None and is_list(dict_get(groups, d)) '
+             '           and dict_get(groups, d) is not bad_rcpts and dict_get(groups, d) is not recipients '
+             '           and len(dict_get(groups, d)) >= 1)) '
+             'and forall(Str, lambda d1: forall(Str, lambda d2: implies(dict_has(groups, d1) and dict_has(groups, d2) and d1 != d2, '
+             '           dict_get(groups, d1) is not dict_get(groups, d2))))')
+
+
+def _grp_inv(n, gpos, ginv, gbinv, groups='groups', bad='bad_rcpts', rc='recipients'):
+    return [
+        # where recipient i went
+        'forall(range(0, %s), lambda i: implies(valid_rcpt(%s[i]), dict_has(%s, domain_of(%s[i])) '
+        '   and 0 <= %s[i] and %s[i] < len(dict_get(%s, domain_of(%s[i]))) '
+        '   and dict_get(%s, domain_of(%s[i]))[%s[i]] == %s[i] and %s[domain_of(%s[i])][%s[i]] == i))'
+        % (n, rc, groups, rc, gpos, gpos, groups, rc, groups, rc, gpos, rc, ginv, rc, gpos),
+        'forall(range(0, %s), lambda i: implies(not valid_rcpt(%s[i]), 0 <= %s[i] and %s[i] < len(%s) '
+        '   and %s[%s[i]] == %s[i] and %s[%s[i]] == i))' % (n, rc, gpos, gpos, bad, bad, gpos, rc, gbinv, gpos),
+        # and nothing else is in the lists: every stored element is one of the recipients, at its own place
+        'forall(Str, lambda d: implies(dict_has(%s, d), forall(range(0, len(dict_get(%s, d))), lambda p: '
+        '   0 <= %s[d][p] and %s[d][p] < %s and valid_rcpt(%s[%s[d][p]]) and domain_of(%s[%s[d][p]]) == d '
+        '   and %s[%s[d][p]] == p)))' % (groups, groups, ginv, ginv, n, rc, ginv, rc, ginv, gpos, ginv),
+        'forall(range(0, len(%s)), lambda p: 0 <= %s[p] and %s[p] < %s and not valid_rcpt(%s[%s[p]]) '
+        '   and %s[%s[p]] == p)' % (bad, gbinv, gbinv, n, rc, gbinv, gpos, gbinv),
+    ]
+
+
+contract('RecipientDomainSplit._get_domain_groups', module=MS, props=['C16'],
+         params={'self': 'RecipientDomainSplit', 'recipients': 'List[Str]'}, returns='Tuple[Groups, List[Str]]',
+         requires=['recipients != None'],
+         ghost_after={'bad_rcpts.append(rcpt)': ['_gpos = store(_gpos, _k, len(bad_rcpts) - 1)',
+                                                 '_gbinv = store(_gbinv, len(bad_rcpts) - 1, _k)'],
+                      'groups.setdefault(domain, []).append(rcpt)': [
+                          '_gpos = store(_gpos, _k, len(dict_get(groups, domain)) - 1)',
+                          '_ginv = store(_ginv, domain, store(_ginv[domain], len(dict_get(groups, domain)) - 1, _k))']},
+         ghost_entry=['_gpos = self.gpos', '_ginv = self.ginv', '_gbinv = self.gbinv'],
+         ghost_exit=['self.gpos = _gpos', 'self.ginv = _ginv', 'self.gbinv = _gbinv'],
+         ensures=['let(result[0], lambda groups: let(result[1], lambda bad_rcpts: ' + GROUPS_WF + '))',
+                  'fresh(result[0]) and fresh(result[1])',
+                  'forall(Str, lambda d: implies(dict_has(result[0], d), fresh(dict_get(result[0], d))))'] +
+                 ['let(result[0], lambda groups: let(result[1], lambda bad_rcpts: %s))' % c
+                  for c in _grp_inv('len(recipients)', 'self.gpos', 'self.ginv', 'self.gbinv')] +
+                 ['seq(recipients) == old(seq(recipients))'],
+         modifies=['self.gpos', 'self.ginv', 'self.gbinv', 'fresh'],
+         locals={'groups': 'Groups', 'bad_rcpts': 'List[Str]'},
+         loops={0: dict(modifies=['fresh'],
+                        inv=[GROUPS_WF, 'fresh(groups) and fresh(bad_rcpts)',
+                             'forall(Str, lambda d: implies(dict_has(groups, d), fresh(dict_get(groups, d))))'] +
+                            _grp_inv('_k', '_gpos', '_ginv', '_gbinv'))})
+
+GRPI = _grp_inv('len(envelope.recipients)', 'self.gpos', 'self.ginv', 'self.gbinv', rc='envelope.recipients')
+contract('RecipientDomainSplit.apply', module=MS, props=['C16'],
+         params={'self': 'RecipientDomainSplit', 'envelope': 'Envelope'}, returns='Opt[List[Envelope]]',
+         requires=['envelope != None', 'envelope.recipients != None', 'envelope.headers != None', 'allocated(envelope.headers)'],
+         ensures=['implies(result != None, fresh(result))', 'implies(result != None, len(result) >= 2)',
+                  'implies(result != None, forall(result, lambda e: e != None and fresh(e)))',
+                  'implies(result != None, forall(result, lambda e: e.sender == envelope.sender))',
+                  'implies(result != None, forall(result, lambda e: e.recipients != None and len(e.recipients) >= 1))',
+                  'implies(result != None, forall(result, lambda e: e.headers != None and fresh(e.headers) and e.headers is not envelope.headers))',
+                  'implies(result != None, forall(pairs(len(result)), lambda a, b: result[a] is not result[b] '
+                  '        and result[a].headers is not result[b].headers))',
+                  'seq(envelope.recipients) == old(seq(envelope.recipients))'],
+         checks=[
+             # split iff there is more than one destination (distinct domains + recipients without a domain)
+             '(result == None) == (len(groups) + len(bad_rcpts) <= 1)',
+             # one envelope per domain, in first-seen order, carrying exactly the recipients of that domain (the list
+             # _get_domain_groups built, whose contents are characterised there), then one per bad recipient
+             'implies(result != None, len(result) == len(groups) + len(bad_rcpts))',
+             'implies(result != None, forall(Str, lambda d: implies(dict_has(groups, d), '
+             '        result[dict_index(groups, d)].recipients is dict_get(groups, d))))',
+             'implies(result != None, forall(range(len(groups), len(result)), lambda j: '
+             '        len(result[j].recipients) == 1 and result[j].recipients[0] == bad_rcpts[j - len(groups)]))'] +
+            # ... and the lists still hold exactly what _get_domain_groups put there: every recipient once
+            ['implies(result != None, %s)' % c for c in _grp_inv('len(envelope.recipients)', 'self.gpos', 'self.ginv', 'self.gbinv', rc='envelope.recipients')],
+         modifies=['self.gpos', 'self.ginv', 'self.gbinv', 'fresh'],
+         locals={'groups': 'Groups', 'bad_rcpts': 'List[Str]', 'ret': 'List[Envelope]'},
+         # loop frames: `ret` and the envelopes created by the iterations; the groups built before the loops are
+         # outside them, so what _get_domain_groups established about their contents still holds at the end
+         loops={0: dict(modifies=['contents(ret)', 'new'],
+                        inv=['ret != None and fresh(ret) and is_list(ret) and len(ret) == _k',
+                             'forall(ret, lambda e: e != None and fresh(e) and e.sender == envelope.sender and e.recipients != None and allocated(e.recipients) and allocated(e) and e.headers != None and fresh(e.headers) and e.headers is not envelope.headers and len(e.recipients) >= 1)',
+                             'forall(range(0, _k), lambda j: ret[j].recipients is dict_get(groups, _seq0[j]))',
+                             'forall(pairs(len(ret)), lambda a, b: ret[a] is not ret[b] and ret[a].headers is not ret[b].headers)']),
+                1: dict(modifies=['contents(ret)', 'new'],
+                        inv=['ret != None and fresh(ret) and is_list(ret) and len(ret) == len(groups) + _k',
+                             'forall(ret, lambda e: e != None and fresh(e) and e.sender == envelope.sender and e.recipients != None and allocated(e.recipients) and allocated(e) and e.headers != None and fresh(e.headers) and e.headers is not envelope.headers and len(e.recipients) >= 1)',
+                             'forall(Str, lambda d: implies(dict_has(groups, d), ret[dict_index(groups, d)].recipients is dict_get(groups, d)))',
+                             'forall(range(len(groups), len(ret)), lambda j: len(ret[j].recipients) == 1)',
+                             'forall(range(len(groups), len(ret)), lambda j: ret[j].recipients[0] == bad_rcpts[j - len(groups)], trigger=lambda j: ret[j])',
+                             'forall(range(len(groups), len(ret)), lambda j: ret[j].recipients is not bad_rcpts)',
+                             'forall(pairs(len(ret)), lambda a, b: ret[a] is not ret[b] and ret[a].headers is not ret[b].headers)'])})
 
 klass('Forward', ['QueuePolicy'], module=MF, fields={'mapping': 'List[Tuple[Pattern, Str, Int]]'})
 extern('re.subn', params={'pattern': 'Pattern', 'repl': 'Str', 'string': 'Str', 'count': 'Int'},
